@@ -32,7 +32,8 @@ RULE = ("histories: 3-6 producing operations chained on small coolers (n<=8 bins
 EXHAUSTIVE = {"quick": False, "thorough": False}
 TRUSTED = ["h5py reads of raw datasets/attributes", "HDF5 filters are value-transparent",
            "numpy flatnonzero/diff/concatenate in rlencode are primitives of the model's per-block step"]
-ASSUMPTIONS = ["count columns hold integers in the generated histories (the sum clause is exact)"]
+ASSUMPTIONS = ["count columns hold integers or multiples of 1/4 (floats are compared exactly after scaling by 4096; a float column with "
+               "other values makes the monitor skip the sum clause)"]
 CHUNK = 2
 
 
@@ -127,18 +128,38 @@ def _history(case):
         bdf = gen.bins_df(bins)
         base = []  # (path, uri) of coolers over the base table
         for step in range(case["steps"]):
-            opts = ["create", "create_chunks", "create_unsorted_chunks", "unordered", "empty"]
+            opts = ["create", "create_chunks", "create_unsorted_chunks", "unordered", "empty", "bigcounts"]
             if base:
                 opts += ["merge", "merge", "coarsen", "coarsen", "zoomify", "append"]
             if step == 0:
                 opts = ["create", "create_chunks", "create_unsorted_chunks", "unordered"]
-            op = rng.choice(opts)
+            op = case["ops"][step] if "ops" in case else rng.choice(opts)
+            force2 = op == "zoomify2"
+            if force2:
+                op = "zoomify"
             px = gen.matrix_kinds(rng, n, symm)
             if op == "create":
                 p = newfile()
                 trail.append(["create", len(px)])
                 impl(gen.write_cooler, p, bins, px, symm=symm)
                 base.append(p)
+            elif op == "bigcounts":
+                # every value fits int32, the TOTAL does not
+                p = newfile()
+                big = [[i, j, 2 ** 30 + 7 * k] for k, (i, j, _) in enumerate(px[:5])] or [[0, 0, 2 ** 30]]
+                cuts2 = [len(big) // 2]
+                chunks = [big[:cuts2[0]], big[cuts2[0]:]]
+                trail.append(["create-big-counts", [c[2] for c in big]])
+                impl(cooler.create_cooler, p, bdf, (gen.pixels_df(c) for c in chunks if c), symmetric_upper=symm, ordered=True)
+                r = _check_file(p, "bigcounts", trail)
+                if r:
+                    return r
+                q = newfile()
+                impl(cooler.merge_coolers, q, [p], mergebuf=3)
+                r = _check_file(q, "merge of bigcounts", trail)
+                if r:
+                    return r
+                continue
             elif op == "empty":
                 p = newfile()
                 trail.append(["create-empty-stream"])
@@ -223,8 +244,25 @@ def _history(case):
                     res = [int(c.binsize) * m for m in rng.sample([2, 3, 4, 6], 2)]
                 p = newfile(".mcool")
                 cs = rng.randint(1, 12)
-                trail.append(["zoomify", res, cs])
-                impl(cooler.zoomify_cooler, src, p, res, cs)
+                srcs = src
+                if c.binsize is not None and (force2 or rng.random() < 0.5):
+                    # a second base at a coarser resolution with a FLOAT count column (values multiples of 1/4)
+                    b2 = int(c.binsize) * 5
+                    src2 = newfile()
+                    cbins = impl(lambda: cooler.Cooler(src).bins()[:])
+                    import pandas as pd2
+                    cs_ = pd2.Series({str(k): int(v) for k, v in cooler.Cooler(src).chromsizes.items()})
+                    nb2 = cooler.binnify(cs_, b2)
+                    n2 = len(nb2)
+                    px2 = gen.matrix_kinds(rng, n2, symm)
+                    df2 = gen.pixels_df([[i, j, 0] for i, j, _ in px2])
+                    df2["count"] = np.array([v / 4 for _, _, v in px2], dtype=np.float64)
+                    impl(cooler.create_cooler, src2, nb2, df2, symmetric_upper=symm, ordered=True, dtypes={"count": "float64"})
+                    srcs = [src, src2]
+                    res = sorted({int(c.binsize) * 2, b2 * 2})
+                    files.append(src2) if src2 not in files else None
+                trail.append(["zoomify", res, cs, "two bases (int32 + float64)" if isinstance(srcs, list) else "one base"])
+                impl(cooler.zoomify_cooler, srcs, p, res, cs)
                 r = _check_file(p, f"zoomify {res}", trail)
                 if r:
                     return r
@@ -362,6 +400,11 @@ def cases(tier, rng):
     yield "rlencode", {"xs": [0, 0, 1, 1, 2, 2], "chunks": [1, 2, 3]}          # a run starting exactly on a block start
     yield "history", {"seed": 11, "n": 5, "symm": True, "var": False, "layout": [3, 1, 1], "steps": 2, "scool": False, "longbin": True}
     yield "history", {"seed": 12, "n": 6, "symm": False, "var": False, "layout": [6], "steps": 3, "scool": False}
+    # second-wave seeded changes: zoomify from two bases with different count dtypes; totals beyond int32; scool cells
+    for sd in (21, 22, 23, 24):
+        yield "history", {"seed": sd, "n": 4 + sd % 3, "symm": True, "var": False, "layout": [4 + sd % 3], "steps": 2, "scool": sd % 2 == 0,
+                          "ops": ["create", "zoomify2"]}
+    yield "history", {"seed": 25, "n": 5, "symm": True, "var": False, "layout": [3, 2], "steps": 2, "scool": True, "ops": ["bigcounts", "create"]}
     yield "rlencode", {"xs": [0, 0, 1, 1, 1, 3], "chunks": [1, 2, 3, 4, 5, 6, 7]}
     yield "index", {"xs": [2, 2, 5], "n": 7}
     yield "index", {"xs": [], "n": 3}
